@@ -180,22 +180,30 @@ def lattice_cases(rng, max_len, palette, n_random, fault_kinds=False):
 
 # =========================================================================== multi-period solves (C05; C06 'skip moves on')
 # span types: how the span object is searched by _locate_period_in_span -> the model's lookup kind
-#   0 = span.index (list / range)   1 = the fallback (NumPy array)   2 = pandas get_loc (answers recorded from the run)
-SPAN_KIND = {'range': 0, 'list_str': 0, 'list_dup': 0, 'np_int': 1, 'np_str': 1, 'np_dup': 1,
-             'pd_int': 2, 'pd_str': 2, 'period_q': 2, 'pd_dup': 2}
-SPAN_NODUP = ('range', 'list_str', 'np_int', 'np_str', 'pd_int', 'pd_str', 'period_q')
+#   0 = span.index (list / tuple / range)   1 = the fallback (NumPy array)   2 = answers recorded from the run (PeriodIndex: get_loc
+#   parses strings and partial dates)   3 = pandas Index of plain labels (modelled get_loc: SolveAllSpan.locate_getloc)
+SPAN_KIND = {'range': 0, 'list_str': 0, 'tuple_str': 0, 'list_dup': 0, 'np_int': 1, 'np_str': 1, 'np_dup': 1,
+             'pd_int': 3, 'pd_str': 3, 'period_q': 2, 'pd_dup': 3, 'pd_dupnm': 3, 'list_dupnm': 0, 'np_dupnm': 1}
+SPAN_NODUP = ('range', 'list_str', 'tuple_str', 'np_int', 'np_str', 'pd_int', 'pd_str', 'period_q')
 
 
 def make_span(span_type, n):
     import numpy as np
     strs = ['p%d' % i for i in range(n)]
     dups = ['p%d' % (0 if i == 1 else i) for i in range(n)]          # label of period 1 repeats period 0
+    dupnm = ['p%d' % (1 if i == 0 else 0 if i == 1 else 1 if i == 2 else i) for i in range(n)]   # p1 p0 p1 p3 ...: repeated, not monotonic
     if span_type == 'range':
         return range(2000, 2000 + n)
     if span_type == 'list_str':
         return strs
+    if span_type == 'tuple_str':
+        return tuple(strs)
     if span_type == 'list_dup':
         return dups
+    if span_type == 'list_dupnm':
+        return dupnm
+    if span_type == 'np_dupnm':
+        return np.array(dupnm, dtype=str) if n else np.array([], dtype=str)
     if span_type == 'np_int':
         return np.arange(2000, 2000 + n)
     if span_type == 'np_str':
@@ -209,6 +217,8 @@ def make_span(span_type, n):
         return pd.Index(strs, dtype=object)
     if span_type == 'pd_dup':
         return pd.Index(dups, dtype=object)
+    if span_type == 'pd_dupnm':
+        return pd.Index(dupnm, dtype=object)
     if span_type == 'period_q':
         return pd.period_range('2000Q1', periods=n, freq='Q')
     raise AssertionError(span_type)
